@@ -29,6 +29,9 @@ class ExprMixin:
         gs = getattr(self.path, 'gseq', None)
         if gs and name in gs:
             return gs[name]
+        og = getattr(self.cur_contract, 'opaque_globals', None) or {}
+        if name in og and name not in fr.env:
+            return self.opaque_global(name, og[name])
         ef = getattr(self.cur_contract, 'effects', None) or {}
         if name in ef and name not in fr.env:
             return Builtin('effect:' + name, lambda a, k, n, f, name=name: self.do_effect(name, a, k, ef[name], n, f))
@@ -504,6 +507,12 @@ class ExprMixin:
 
     def contains(self, cont, x, node=None):
         cont = self.unwrap(cont, node)
+        if isinstance(cont, VStruct):
+            if cont.pycls is not None and '__contains__' in _mro_dict(cont.pycls):
+                if isinstance(x, VOpt) and (x.none is False or (z3.is_expr(x.none) and z3.is_false(z3.simplify(x.none)))):
+                    x = x.val
+                return self.truth(self.call_method(cont, '__contains__', [x]))
+            raise Unsupported('`in` on an object without __contains__')
         if isinstance(x, VOpt):
             # None is never an element / key of the containers modelled here
             return self.land(self.lnot(x.none), self.contains(cont, x.val, node))
@@ -713,6 +722,8 @@ class ExprMixin:
     def getattr(self, base, attr, node=None):
         if isinstance(base, VOpt):
             base = self.unwrap(base, node)
+        if z3.is_expr(base) and base.sort() == self.zs.zsort(api.Obj):
+            base = VObj(base)          # a raw opaque-object term (element of a symbolic sequence of objects)
         if isinstance(base, VStruct):
             me = getattr(self.cur_contract, 'method_effects', None) or {}
             if attr in me and attr not in base.f:
@@ -757,12 +768,25 @@ class ExprMixin:
                 return simp(res)
         if isinstance(base, (VBox, PyList, PyDict, VMatch)) or z3.is_expr(base):
             return BoundMethod(base, attr)
+        if type(base).__name__ == 'ExcVal':
+            at = base.__dict__.setdefault('attrs', {})
+            if attr in at:
+                return at[attr]
+            if hasattr(base.cls, attr) and not callable(getattr(base.cls, attr)):
+                # a data attribute every instance of the exception class has (UnicodeError.reason ...): an unknown value
+                at[attr] = VObj(self.path.fresh(self.zs.zsort(api.Obj), f'exc_{attr}'))
+                return at[attr]
+        if isinstance(base, VObj) and attr == 'decode' and base.term.get_id() in self.__dict__.get('bytes_terms', ()):
+            return BoundMethod(base, attr)
         if isinstance(base, VObj):
             me = getattr(self.cur_contract, 'method_effects', None) or {}
             if attr in me:
                 return Builtin('effect:' + attr, lambda a, k, n, f, attr=attr, base=base: self.do_effect(attr, [base] + list(a), k, me[attr], n, f))
             return self.obj_attr(base, attr, node)
         if isinstance(base, types.ModuleType):
+            og = getattr(self.cur_contract, 'opaque_globals', None) or {}
+            if attr in og:
+                return self.opaque_global(attr, og[attr])
             ef = getattr(self.cur_contract, 'effects', None) or {}
             if attr in ef:
                 return Builtin('effect:' + attr, lambda a, k, n, f, attr=attr: self.do_effect(attr, a, k, ef[attr], n, f))
@@ -795,6 +819,7 @@ class ExprMixin:
             fails = self.path.fresh(z3.BoolSort(), f'{name}_raises_{exn}')
             if self.path.branch(fails):
                 self.path.trace.append(('raised', name, exn))
+                self.ghost_record('raised ' + exn, self.path.trace[-1], False)
                 raise PyRaise(self.exc_class(exn, fr.module if fr else None), (), node)
         if ret is not None:
             rv = self.sym_of_sort(ret, 'r_' + name, fr)
@@ -803,6 +828,13 @@ class ExprMixin:
             return rv
         return None
 
+    def opaque_global(self, name, S):
+        cache = self.path.__dict__.setdefault('oglobals', {})
+        if name not in cache:
+            cache[name] = self.sym_of_sort(S, 'g_' + name, None)
+            self.assumptions.add(f'module-level object {name} is an arbitrary value of sort {S} (not modelled beyond this function)')
+        return cache[name]
+
     def ghost_record(self, name, ev, returned):
         """ghost sequences declared by the contract (Contract.ghost_seqs): the chosen component of every event of the named kind
         is appended to a SYMBOLIC sequence, which loop invariants may speak about (it is havocked with the loop state)"""
@@ -810,9 +842,9 @@ class ExprMixin:
         if not gs:
             return
         for gname, (evname, idx, S) in (getattr(self.path, 'gseq_decl', None) or {}).items():
-            if evname != name or (idx < 0) != returned:
+            if evname != name or (idx is not None and idx < 0) != returned:
                 continue
-            v = ev[idx]
+            v = 1 if idx is None else ev[idx]          # (no component: the ghost sequence only counts the events)
             t = self.unwrap_term(v)
             if not z3.is_expr(t):
                 t = self.zs.lift(t, self.zs.zsort(S))
